@@ -49,6 +49,7 @@ func inputStepCount(a any) (int, bool) {
 }
 
 func c13check(text, form string, c sx.S, wellFormed bool) *parsed {
+	noteCase("C13", text)
 	done := make(chan struct{})
 	var r *parsed
 	var bad string
@@ -144,7 +145,11 @@ func init() {
 		if thorough {
 			m = 100000
 		}
-		junk := []string{"\x00", "\xff\xfe", "&a", "*a", "<<: *a", "{", "}", "[", "]", ": ", "- ", "\n", "\t", "!!binary ", "? ", "|", ">", "'", "\"", "%YAML 1.1", "---", "...", "&x [*x]", "!!int x", " "}
+		for _, t := range []string{"- command: echo hello\n  <<: &loop [*loop]\n", "steps:\n  - wait\n<<: &l [[*l]]\n", "a: &a [*a]\nsteps: []\n",
+			"steps:\n  - &s {command: x, <<: *s}\n", "x: &x {<<: [*x, &y [*y]]}\nsteps: []\n"} {
+			c13check(t, "yaml-cycle", sx.L(sx.A("yaml-cycle"), sx.A(t)), false)
+		}
+		junk := []string{"<<: &q [*q]", "\x00", "\xff\xfe", "&a", "*a", "<<: *a", "{", "}", "[", "]", ": ", "- ", "\n", "\t", "!!binary ", "? ", "|", ">", "'", "\"", "%YAML 1.1", "---", "...", "&x [*x]", "!!int x", " "}
 		for i := 0; i < m; i++ {
 			g := newDocgen(rng, true)
 			text, form := renderDoc(g.document(), i)
